@@ -63,7 +63,7 @@ func (r *ReceivedMessageReader[C]) loop(loopDone chan struct{}, readingMessages 
 		case req := <-r.queue:
 			// This signalizes that the loop is not reading messages.
 			readingMessages.Store(false)
-			verifHook("dequeued", r.cc)
+			verifHook("dequeued", req)
 			r.cc.ProcessReceivedMessage(req)
 			verifHook("processed", r.cc)
 			// This signalizes that the loop is reading messages. We call mutex because we want to ensure that TryToReplaceLoop has ended and
